@@ -50,6 +50,15 @@ def check(ctx):
     ctx.guard(r124_order, ctx)
     from .c13 import r133_merge_test
     ctx.guard(r133_merge_test, ctx, "R12.3")
+    # invariance under joint row permutations / label bijections: groups come out in sorted label order (the default groupby of
+    # _apply_functions, not first appearance), and the aggregates over groups are pandas' named reductions, which do not depend on
+    # which group is first (the builtin min / max skip a NaN only when it is not the first cell)
+    ctx.rule("R12.5", "MetricFrame's result order and aggregates do not depend on the row order: the grouping and re-indexing formula "
+                      "of _apply_functions (shared with C01 R01.3) and the aggregator dispatch of apply_grouping (shared with C02 R02.1)")
+    from .c01 import r013_grouping
+    from .c02 import r021
+    ctx.aliased({"R01.3": "R12.5"}, r013_grouping, ctx)
+    ctx.aliased({"R02.1": "R12.5"}, r021, ctx)
 
 
 def label_sinks(ctx, rule, eps):
